@@ -1405,7 +1405,9 @@ func (w *responseWriter) close() {
 		w.writeHeader(http.StatusOK)
 	}
 	if w.w != nil {
-		_, _ = w.w.Write(nil) // trigger any final writes
+		if !w.endWritten {
+			_, _ = w.w.Write(nil) // trigger any final writes
+		}
 		_ = w.w.Close()
 	}
 	if w.endWritten {
@@ -1590,6 +1592,11 @@ func (w *envelopingWriter) handleEnvelopeWritten() error {
 }
 
 func (w *envelopingWriter) Close() error {
+	if w.rw.endWritten && w.err == nil {
+		// The end was reported from elsewhere (the request side, for example):
+		// nothing buffered here may follow it.
+		w.err = errFinalDataAlreadyWritten
+	}
 	var buf *bytes.Buffer
 	if w.mustReleaseCurrent {
 		var ok bool
@@ -1809,6 +1816,11 @@ func (w *transformingWriter) Write(data []byte) (n int, err error) {
 }
 
 func (w *transformingWriter) Close() error {
+	if w.rw.endWritten && w.err == nil {
+		// The end was reported from elsewhere (the request side, for example):
+		// nothing buffered here may follow it.
+		w.err = errFinalDataAlreadyWritten
+	}
 	if w.err != nil {
 		// already failed or finished; nothing more to send or to examine
 	} else if w.expectingBytes == -1 {
